@@ -227,7 +227,7 @@ func Run(raw json.RawMessage) (any, error) {
 	must(src, "set @@autocommit = 1", "call dolt_checkout('main')")
 	same := func() bool {
 		ok := true
-		for _, q := range []string{"select * from t", "select * from u", "select dolt_hashof_db('HEAD')", "select commit_hash from dolt_log"} {
+		for _, q := range []string{"select * from t", "select * from u", "select * from wd", "select dolt_hashof_db('HEAD')", "select commit_hash from dolt_log"} {
 			if a, b := rows(src, q), rows(cl, q); a != b {
 				ok = false
 				o.Notes = append(o.Notes, "differs: "+q)
